@@ -203,6 +203,32 @@ class C02(Spec):
                 for x, y in ((A, B), (B, A), (A, A2), (A2, A), (A, D), (D, B), (B, B)):
                     h.append("jac %d %d %d" % (x, y, seed))
                     h.append("jeq %d %d %d" % (x, y, seed))
+            if rng.random() < 0.5:
+                # small unions fed ONE exact operand much larger than their table, in UNORDERED physical forms: the union's own table
+                # rebuilds (lowering its theta) in the middle of the input, possibly near its end, and every later entry has to be
+                # screened against the theta of that moment; many input sizes, since where the last rebuild falls depends on the data
+                base = rng.randrange(universe * 16)
+                for _r in range(8 if tier == "quick" else 16):
+                    lgu = rng.choice([5, 5, 5, 6])
+                    n = rng.randrange((1 << lgu) * 2 - 8, (1 << lgu) * 14)
+                    i = fresh()
+                    h.append("new %d %d %d 3f800000 %d" % (i, rng.choice([9, 10]), rng.randrange(4), seed))
+                    for x in range(n):
+                        h.append("upd %d u64 %d" % (i, base + x))
+                    base += rng.randrange(1, n)
+                    src = i
+                    r = rng.random()
+                    if r < 0.5:
+                        src = fresh()
+                        h.append("compact %d %d 0" % (i, src))
+                        if r < 0.25:
+                            d = fresh()
+                            h.append("ser %d %d %s %d" % (src, d, rng.choice(["deser", "wrap", "deserc", "wrapc"]), seed))
+                            src = d
+                    u = fresh()
+                    h.append("unew %d %d %d 3f800000 %d" % (u, lgu, rng.randrange(4), seed))
+                    h.append("uupd %d %d" % (u, src))
+                    h.append("ures %d %d %d" % (u, fresh(), rng.randrange(2)))
             hs.append(h)
         return hs
 
